@@ -107,6 +107,36 @@ for st, sep, o in orders:
             seen["error"] = repr(e)
     if seen.get("order_id") != o.id or seen.get("strategy") is not st:
         probs.append(("create_order_from_current does not recover (strategy, id)", repr(st.name)[:30], sep, o.customer_order_ref + " -> " + repr(seen.get("order_id", seen.get("error")))))
+# 2c distinct strategies have distinct reference prefixes (names that differ only in non-ASCII characters included):
+#    otherwise a reference is attributed to another strategy by the hash registry of a second instance
+uni = ["scalper-\u00e9", "scalper-\u00fc", "\u7b56\u7565\u4e00", "\u7b56\u7565\u4e8c", "scalper-", "", "a", "b", "A", "x" * 5000, "x" * 4999 + "y", "na\u00efve", "naive"]
+hs = {}
+for nm in uni:
+    out["evaluations"] += 1
+    st = S(market_filter={}, name=nm)
+    if st.name_hash in hs and hs[st.name_hash] != nm:
+        probs.append(("two different strategy names share one reference prefix (hash): orders of one are attributed to the other", repr(nm)[:30] + " / " + repr(hs[st.name_hash])[:30], "", st.name_hash))
+    hs[st.name_hash] = nm
+# 2d the separator configured at run time (flumine.config.order_sep): an order created without an explicit separator is either
+#    rejected or carries an acceptable, splittable reference
+from flumine import config as CFG
+saved_sep = CFG.order_sep
+try:
+    for cfg_sep in ["@", " ", "/", "\u00e9", "--", "ab", "", "_", ":"]:
+        out["evaluations"] += 1
+        CFG.order_sep = cfg_sep
+        st = S(market_filter={}, name="cfg")
+        tr = Trade("1.100", 123, 0, st)
+        try:
+            o = tr.create_order("BACK", LimitOrder(2.0, 2.0))
+            ref = o.customer_order_ref
+        except Exception:
+            continue  # rejected: allowed
+        h, i = ref[: utils.STRATEGY_NAME_HASH_LENGTH], ref[utils.STRATEGY_NAME_HASH_LENGTH + 1 :]
+        if len(ref) > 32 or not set(ref) <= DOC or h != st.name_hash or i != o.id:
+            probs.append(("order created with run-time config.order_sep=%%r carries an unacceptable / unsplittable reference" %% (cfg_sep,), "cfg", cfg_sep, ref))
+finally:
+    CFG.order_sep = saved_sep
 if probs:
     what, nm, sep, ref = probs[0]
     out["violations"].append(dict(obligation="bounded:reference_round_trip", input=dict(strategy_name=nm, sep=sep, reference=ref), observed=what, count=len(probs)))
